@@ -39,9 +39,9 @@ def gen(run, plans, cfg="Gen_XState.cfg", module="Gen_XState.tla", tag=""):
 # For the other properties decided by this specification the acceptance of such a block is outside what the
 # property states, so the specification is permissive there (R2): the deviation is enabled silently and the
 # rest of that behaviour is skipped, no KNOWN-FINDING line is printed.
-_ALL = ["KF_PoolMasksBlockOrder", "KF_PlayKeepsStaleReader", "KF_PoolOrderAntiDep", "KF_FrozenLedgerHeight"]
-OUTSIDE = {"C01": ["KF_PlayKeepsStaleReader", "KF_FrozenLedgerHeight"], "C02": ["KF_PlayKeepsStaleReader", "KF_PoolOrderAntiDep", "KF_FrozenLedgerHeight"],
-           "C03": ["KF_FrozenLedgerHeight"], "C13": ["KF_PoolMasksBlockOrder", "KF_PlayKeepsStaleReader", "KF_FrozenLedgerHeight"],
+_ALL = ["KF_PoolMasksBlockOrder", "KF_PoolOrderAntiDep", "KF_FrozenLedgerHeight"]
+OUTSIDE = {"C01": ["KF_FrozenLedgerHeight"], "C02": ["KF_PoolOrderAntiDep", "KF_FrozenLedgerHeight"],
+           "C03": ["KF_FrozenLedgerHeight"], "C13": ["KF_PoolMasksBlockOrder", "KF_FrozenLedgerHeight"],
            "C05": _ALL, "C06": _ALL, "C17": _ALL, "C18": _ALL}
 
 
